@@ -292,6 +292,15 @@ Section Sentences.
     intro E; subst cr. cbn in R. destruct R; discriminate.
   Qed.
 
+  Theorem create_at_most_once_never_overwrites :
+    (forall sched pre x mid y post i a c,
+       history_of P sched = pre ++ x :: mid ++ y :: post ->
+       h_op x = Create i a -> h_res x = Ok -> h_op y = Create i c -> h_res y <> Ok) /\
+    (forall s i new n s' cr w,
+       lookup (value_of b s) i = Some w -> exec P s (CCreate i new) n = (s', cr) ->
+       lookup (value_of b s') i = Some w /\ cr <> CCreated).
+  Proof. split; [exact create_at_most_once | exact create_never_overwrites]. Qed.
+
   Theorem create_success_was_absent s i new n s' :
     exec P s (CCreate i new) n = (s', CCreated) ->
     lookup (value_of b s) i = None /\ lookup (value_of b s') i = Some (norm new).
